@@ -44,10 +44,16 @@ class QM:
         self.name_terms = []        # names at which set-membership choice functions are instantiated
         self.name_facts = []        # fn(name term) -> formula
         self.big_apps = []          # (kind, F, body_fn, n) applications of big operators
+        self.app_keys = set()
+        self.index_ids = set()
+        self.instantiating = False
         self.ext_done = {}
 
     def add_index(self, t, length):
-        if all(t.get_id() != u.get_id() for u, _l in self.index_terms):
+        if self.instantiating and z3.is_app(t) and t.decl().kind() in (z3.Z3_OP_ADD, z3.Z3_OP_SUB, z3.Z3_OP_MUL, z3.Z3_OP_UMINUS):
+            return      # shifted indices met while instantiating (t + 1 ...) are not instantiated at in turn
+        if t.get_id() not in self.index_ids:
+            self.index_ids.add(t.get_id())
             self.index_terms.append((t, length))
 
     def add_name(self, n):
@@ -81,21 +87,43 @@ class QM:
             self.add_index(w, n)
             self.links.append(z3.Or(F(n) == 0, z3.And(w >= 0, w < n, f(w) != 0)))
 
-    def facts(self, rounds=3):
+    def facts(self, rounds=4):
+        """All ground instances: every universally quantified fact at every index term in play
+        (instantiating may bring new big operators, index terms and facts: iterate to a fixpoint,
+        at most `rounds` times)."""
+        key = self._state()
+        if getattr(self, "_facts_cache", None) and self._facts_cache[0] == key:
+            return list(self._facts_cache[1])
         self.extensionality()
-        out = list(self.links)
-        seen = 0
+        self.instantiating = True
+        try:
+            out = self._facts(rounds)
+        finally:
+            self.instantiating = False
+        self._facts_cache = (self._state(), out)
+        return list(out)
+
+    def _state(self):
+        return (len(self.index_terms), len(self.foralls), len(self.links), len(self.name_terms), len(self.name_facts),
+                len(self.big_apps), len(self.app_keys))
+
+    def _facts(self, rounds):
+        inst, seen = [], None
         for _ in range(rounds):
+            inst = []
             for n in list(self.name_terms):
-                for fn in self.name_facts:
-                    out.append(fn(n))
+                for fn in list(self.name_facts):
+                    inst.append(fn(n))
             idx = list(self.index_terms)
             for (t, _len) in idx:
-                for (length, fn) in self.foralls:
-                    out.append(z3.Implies(z3.And(t >= 0, t < length) if length is not None else (t >= 0), fn(t)))
-            if len(self.index_terms) == len(idx) and seen == len(out):
+                for (length, fn) in list(self.foralls):
+                    inst.append(z3.Implies(z3.And(t >= 0, t < length) if length is not None else (t >= 0), fn(t)))
+            self.extensionality()
+            state = (len(inst), len(self.index_terms), len(self.foralls), len(self.links), len(self.name_terms))
+            if state == seen:
                 break
-            seen = len(out)
+            seen = state
+        out = list(self.links) + inst
         # de-duplicate
         uniq = {}
         for f in out:
@@ -172,8 +200,11 @@ def bigsum(I, body_fn, n):
         I.ghost["big_registered"].add(key)
         q.links.append(f(z3.IntVal(0)) == 0)
         q.foralls.append((None, lambda t: f(t + 1) == f(t) + body_fn(t)))
-    if all(not (a[1].name() == f.name() and z3.simplify(a[3]).get_id() == z3.simplify(n).get_id()) for a in q.big_apps):
-        q.big_apps.append(("bigsum", f, body_fn, n))
+    akey = (f.name(), z3.simplify(n).get_id())
+    if akey not in q.app_keys:
+        q.app_keys.add(akey)
+        if not q.instantiating:
+            q.big_apps.append(("bigsum", f, body_fn, n))
     return f(n)
 
 
@@ -184,7 +215,9 @@ def bigprod(I, body_fn, n):
     if key not in I.ghost.setdefault("big_registered", set()):
         I.ghost["big_registered"].add(key)
         q.links.append(f(z3.IntVal(0)) == 1)
-        q.foralls.append((None, lambda t: f(t + 1) == f(t) * body_fn(t)))
+        if not q.instantiating:
+            # (products that only appear inside instantiated facts are used as opaque terms)
+            q.foralls.append((None, lambda t: f(t + 1) == f(t) * body_fn(t)))
         I.ghost.setdefault("bigprod_bodies", {})[f.name()] = (f, body_fn)
         # cons lemma: the product over [a] ++ L is a times the product over L
         body = z3.simplify(body_fn(IDX))
@@ -195,8 +228,12 @@ def bigprod(I, body_fn, n):
                 head, tail = body.arg(1), body.arg(2)
                 tail_fn = lambda t, tail=tail: z3.simplify(z3.substitute(tail, (IDX, z3.simplify(t + 1))))
                 I.ghost.setdefault("cons_lemmas", []).append((f, head, tail_fn))
-    if all(not (a[1].name() == f.name() and z3.simplify(a[3]).get_id() == z3.simplify(n).get_id()) for a in q.big_apps):
-        q.big_apps.append(("bigprod", f, body_fn, n))
+    akey = (f.name(), z3.simplify(n).get_id())
+    if akey not in q.app_keys:
+        q.app_keys.add(akey)
+        if not q.instantiating:
+            # (operators met only while instantiating are never compared extensionally)
+            q.big_apps.append(("bigprod", f, body_fn, n))
         for (cf, head, tail_fn) in list(I.ghost.get("cons_lemmas", [])):
             if cf.name() == f.name():
                 g = bigprod(I, tail_fn, z3.simplify(n - 1))
@@ -267,9 +304,18 @@ def without_entry(body_fn, i):
 
 
 def bigprod_without(I, body_fn, i, n):
-    """prod_{j<n, j != i} body(j): the product over the list (of length n-1) with the i-th entry
-    removed."""
-    return bigprod(I, without_entry(body_fn, i), z3.simplify(n - 1))
+    """prod_{j<n, j != i} body(j) as a function of (i, n); at every index term i in play it is
+    linked to the product over the list (of length n-1) with the i-th entry removed."""
+    body = z3.simplify(body_fn(IDX))
+    key = ("bigprodwo", body.sexpr())
+    if key not in _BIG:
+        _BIG[key] = (z3.Function(f"bigprodwo#{len(_BIG)}", sym.I, sym.I, sym.R), body)
+    f = _BIG[key][0]
+    rkey = ("bigprodwo", f.name(), z3.simplify(n).sexpr())
+    if rkey not in I.ghost.setdefault("big_registered", set()):
+        I.ghost["big_registered"].add(rkey)
+        qm(I).foralls.append((n, lambda t: f(t, n) == bigprod(I, without_entry(body_fn, t), z3.simplify(n - 1))))
+    return f(i, n)
 
 
 def bighash(I, body_fn, n):
@@ -277,6 +323,9 @@ def bighash(I, body_fn, n):
     sequences of equal length hash equally - extensionality link)."""
     f = _big("bighash", body_fn, sym.I)
     q = qm(I)
-    if all(not (a[1].name() == f.name() and z3.simplify(a[3]).get_id() == z3.simplify(n).get_id()) for a in q.big_apps):
-        q.big_apps.append(("bighash", f, body_fn, n))
+    akey = (f.name(), z3.simplify(n).get_id())
+    if akey not in q.app_keys:
+        q.app_keys.add(akey)
+        if not q.instantiating:
+            q.big_apps.append(("bighash", f, body_fn, n))
     return f(n)
